@@ -161,7 +161,6 @@ class SafePriceWorld(sp.PairWorld):
         self.sh.seg0 = self.round
         self.injected = False
         self.legacy = 0
-        self.first_done = set()
 
     # ------------------------------------------------------------ ring observation (raw storage reads)
     def ring_state(self):
@@ -257,7 +256,6 @@ class SafePriceWorld(sp.PairWorld):
                         # nothing retained before the first observation: the shadow starts here
                         self.sh.seg0 = self.round
                         self.sh.seg_end, self.sh.seg_val, self.sh.pre = [], [], []
-                        self.first = (self.round, (pre["r1"], pre["r2"], pre["S"]))
                     self.sh.rec.append(self.round)
                     o["recorded"] = True
         self.last = st
@@ -306,7 +304,6 @@ class SafePriceWorld(sp.PairWorld):
                 rd += g
                 sh.seg0 = rd
                 sh.rec.append(rd)
-                self.first = (rd, (r1, r2, s))
                 first = False
                 c -= 1
                 if c == 0:
@@ -505,7 +502,6 @@ def gen_segs(rng, k):
         gap = rng.choice([1, 1, 1, 2, 3, 7, 50, 1000, 5000])
         segs.append([c, gap] + gen_reserves(rng))
         left -= c
-    # the retained tail should not be one flat run: append short irregular runs at the end
     return segs
 
 
